@@ -452,10 +452,24 @@ func runVMHistory(sc *VMScenario, ctx *RunCtx, prop string) *Finding {
 		if want.Err != nil {
 			msg := want.Err.Error()
 			switch {
-			case contains(msg, "injected crash"):
+			case contains(msg, "injected crash"): // the harness's own panic value
 				ctx.Count("crash_fired", 1)
-			case contains(msg, "memory budget exceeded"):
-				ctx.Count("budget_exceeded_on_fresh", 1)
+			case fired == 0:
+				// Did the budget stop it? Decided from the reference allocation trace,
+				// not from the wording of the library's error.
+				if t := sc.Progs[op.Prog].Tree; t != nil {
+					wr := NewWorld(sc.Stateful, nil, nil)
+					ref := NewRef(BuildEnv(wr, sc.Envs[op.Env]))
+					ref.Eval(t)
+					sum := 0
+					for _, a := range ref.Allocs {
+						sum += a
+						if sum >= op.Budget {
+							ctx.Count("budget_exceeded_on_fresh", 1)
+							break
+						}
+					}
+				}
 			}
 			if scopeDepthAtFailure(machines[op.VM]) > 0 {
 				ctx.Count("failed_in_closure", 1)
